@@ -2,6 +2,7 @@ import FV.Props.Catalog
 import FV.IoSend
 import FV.AddrIndep
 import FV.EmplaceAccAll
+import FV.IoRetain
 /-! # C07 — blocking IO delivers the sent sequence under every chunking
 
 Pipe = a script with one entry per `read` / `write` call. "Every interleaving of a sender and a receiver thread over a
@@ -66,6 +67,14 @@ theorem C07_emplaced_is_deliverable (t : Ty) (h : t.WF) (i : Init) (hw : InitWT 
   refine ⟨o, ho, hres, ?_, h1, h2⟩
   simp only [Slice.len] at hzle
   simp only [List.length_take]; omega
+
+/-- **C07 (`retain`).** A guard that is forgotten (`RecvGuard::retain`, or a leaked guard) leaves the message in the window: the
+next `recv` returns the same message, from the same window, without another read. (The harness retains the first guard of every
+receive case and compares.) -/
+theorem C07_retain_returns_same (d : Dict) (evs : List ReadEv) (b : RBuf) (rest bytes : Bytes) (b' : RBuf) (rest' : Bytes)
+    (evs' : List ReadEv) (h : recv d evs b rest = (.msg bytes, b', rest', evs')) :
+    recv d evs' b' rest' = (.msg bytes, b', rest', evs') :=
+  recv_after_retain d evs b rest bytes b' rest' evs' h
 
 /-- non-vacuity: the hypotheses are met by a catalog type; two `u16` messages delivered in chunks of 1 and 3 bytes -/
 example : S1.WF ∧ 0 < S1.dict.minSize := ⟨S1_wf, by decide⟩
